@@ -1276,6 +1276,11 @@ class Interp:
             if p.get("k") == "Bind" and re.match(r"&('\w+ )?mut ", p.get("ty", "")):
                 lid = p["id"]
                 outs[i] = self.assemble([(pcx[len(pc):], en.get(lid, mk("bottom"))) for pcx, v, en in flows])
+            elif p.get("k") == "Bind" and p.get("ty", "").lstrip().startswith("&") and i < len(args):
+                # shared reference: the referent can still change through interior mutability (RefCell::borrow_mut stores)
+                lid = p["id"]
+                if any(en.get(lid) is not None and en.get(lid) is not args[i] for pcx, v, en in flows):
+                    outs[i] = self.assemble([(pcx[len(pc):], en.get(lid, args[i])) for pcx, v, en in flows])
         return val, outs
 
 
